@@ -569,3 +569,84 @@ class PayoffLeavesItsArgument(Lemma):
 
 
 UNITS += [PayoffLeavesItsArgument()]
+
+class _ScriptedPath:
+    """a coupled stochastic path handed to MLMCPath.process: component 0 = fine, 1 = coarse"""
+
+    def __init__(self, times, values):
+        self._t, self._v = times, values
+
+    def times(self):
+        return self._t
+
+    def value(self):
+        return self._v
+
+    def value_jump(self):
+        return self._v
+
+
+class MultilevelPathProcess(Lemma):
+    """MLMCPath.process (real body) with a PATH-DEPENDENT payoff (real Barrier on the real Spot; two monitoring dates, fine and
+    coarse paths symbolic): the fine payoff is the value of the product on the FINE path alone and the coarse payoff its value
+    on the COARSE path alone -- "the value of a product on a path depends only on that path" inside the multilevel sample
+    (each of the two is compared with a fresh, separate evaluation of an identical product on that path)."""
+    prop = "C17"
+    cases = ("DOWN_AND_OUT", "UP_AND_IN")
+
+    def __init__(self):
+        self.name = "property:multilevel-sample-values-each-path-on-its-own"
+
+    def prove(self, vc, kind):
+        nm = f"{self.name}[{kind}]"
+        it = vc.interp
+        PY, PD, UL, PA = "rpylib.product.payoff:", "rpylib.product.product:", "rpylib.product.underlying:", "rpylib.montecarlo.path:"
+        strike, barrier = vc.real("strike"), vc.real("barrier")
+        n = 2
+        fine, coarse = vc.reals("fine", n + 1), vc.reals("coarse", n + 1)
+        ts = [0.0, 0.5, 1.0]
+
+        def product():
+            pay = vc.new(PY + "Barrier", strike, vc.enum(PY + "PayoffType", "CALL"), vc.enum(PY + "BarrierType", kind), barrier)
+            return vc.new(PD + "Product", vc.new(UL + "Spot"), pay, 1.0)
+        prod = product()
+        values = np.array([fine, coarse], dtype=object)
+        sp_ = _ScriptedPath(np.array(ts), values)
+        it.hooks[PA + "MLMCPath.process_spot_level_l"] = lambda i_, f, b: None
+        det = it.lib.Model(lambda i_, t_: 0.0, "deterministic_path")
+        pm = vc.obj(PA + "MLMCPath", stochastic_path=sp_, deterministic_path=det)
+        vc.method(pm, "process", prod, vc.new(PD + "NoControlVariates"))
+        got = np.ravel(np.asarray(pm.fields["payoff"], dtype=object))
+        vc.check(nm + "::two-payoffs", len(got) == 2)
+        if len(got) != 2:
+            return
+        for comp, path_, tag in ((0, fine, "fine"), (1, coarse, "coarse")):
+            alone = product()
+            u = vc.method(alone, "underlying_value", np.array(ts), np.array(path_, dtype=object), np.array(path_, dtype=object))
+            want = it.call(alone, [u], {})
+            vc.check(nm + f"::{tag}-payoff-is-the-value-of-the-product-on-the-{tag}-path-alone", compare(got[comp], want, "=="))
+
+    def replay(self, model, clause, kind):
+        from rpylib.product.payoff import Barrier, PayoffType, BarrierType
+        from rpylib.product.product import Product, NoControlVariates
+        from rpylib.product.underlying import Spot
+        from rpylib.montecarlo.path import MLMCPath
+        mk = lambda: Product(Spot(), Barrier(100.0, PayoffType.CALL, getattr(BarrierType, kind), 90.0 if "DOWN" in kind else 115.0), 1.0)
+        fine = np.array([100.0, 95.0, 110.0]) if "DOWN" in kind else np.array([100.0, 120.0, 110.0])      # no event / event
+        coarse = np.array([100.0, 85.0, 108.0]) if "DOWN" in kind else np.array([100.0, 105.0, 108.0])    # event / no event
+        ts = np.array([0.0, 0.5, 1.0])
+        pm = MLMCPath.__new__(MLMCPath)
+        pm.stochastic_path = _ScriptedPath(ts, np.array([fine, coarse]))
+        pm.deterministic_path = lambda t: 0.0
+        pm.process_spot_level_l = lambda a, b: None
+        pm.process(mk(), NoControlVariates())
+        got = [float(v) for v in np.ravel(pm.payoff)]
+        want = []
+        for p_ in (fine, coarse):
+            pr = mk()
+            want.append(float(pr(pr.underlying_value(ts, p_, p_))))
+        return (not np.allclose(got, want), {"barrier_type": kind, "fine_path": fine.tolist(), "coarse_path": coarse.tolist(), "payoffs_in_the_multilevel_sample": got, "each_path_on_its_own": want})
+
+
+UNITS += [MultilevelPathProcess()]
+
